@@ -188,6 +188,7 @@ type Exec struct {
 	preserveSorts map[string]Sort // heap arrays of sole-writer fields (solewriter.go): kept across call havocs
 	localBoxes    []localBox      // captured local variables no callee can reach (solewriter.go)
 	curSite       ssa.Instruction // call instruction being executed (innermost)
+	callCounters  map[string]cellKey // ghost counters of calls(f) (callcount.go)
 	sweep    bool // zero-annotation safety sweep: infer loop invariants
 	noSafety bool // suppress safety obligations (functional contracts only)
 	cands    []*candidate
